@@ -60,3 +60,99 @@ Example C07_example :
   exists s, run_stream parse_w true TEof 1 evs = Done EndEof [] s [GUpd (UWithdrawBulk [3]); GEos 2] /\
     cleanup_ok 2 [GUpd (UWithdrawBulk [3]); GEos 2] = true /\ size (sm_peers (s_sm s)) = 1%nat.
 Proof. vm_compute. eexists. repeat split; reflexivity. Qed.
+
+(* ------------------------------------------------------------------ *)
+(* The BGP session (bgp_tcp_in/router_handler.rs Processor::process). Model:
+   Bgp/BgpSessionModel.v - a script is the sequence of events the select! loop sees
+   (tick Ok / negotiated / Err of any kind; SessionNegotiated, UPDATE, NOTIFICATION,
+   ConnectionLost, channel closed; Terminate, the four kinds of Reconfiguring);
+   [bs_loop] = the state in which the loop is left and the events it did not get to,
+   [bs_process] = that followed by the block after the loop. [bs_wf]: the session sends
+   SessionNegotiated at most once and UPDATEs only after it. *)
+From RV Require Import Bgp.BgpSessionModel Bgp.BgpSessionProofs.
+
+(* every script, every live_sessions, whatever ends the loop: what left the gate is Bulks
+   of the session's own routes and then, decided by the two tests of the block after the
+   loop alone, one Withdraw of the session's ingress id *)
+Theorem C07_bgp_cleanup_shape : forall id key live0 evs,
+  let s := (bs_loop id key (bs_init live0) evs).1 in
+  let f := (bs_process id key live0 evs).1 in
+  own_trace id (bs_out s) /\
+  bs_out f = bs_out s ++ (if negb (bs_rej s) && bs_neg s then [UWithdraw id None] else []).
+Proof. exact cleanup_shape. Qed.
+Print Assumptions C07_bgp_cleanup_shape.
+
+(* a session whose SessionNegotiated was accepted: the trace ends with exactly one
+   Withdraw of its id - ConnectionLost, tick error, reconfiguration, de-configuration,
+   closed channel alike -, its key is gone, live_sessions is what it was before it *)
+Theorem C07_bgp_cleanup_once : forall id key live0 evs,
+  bs_wf evs = true ->
+  let s := (bs_loop id key (bs_init live0) evs).1 in
+  let f := (bs_process id key live0 evs).1 in
+  bs_reg s = true ->
+  own_trace id (bs_out s) /\ bs_out f = bs_out s ++ [UWithdraw id None] /\
+  key ∉ bs_live f /\ bs_live f = live0.
+Proof. exact cleanup_once. Qed.
+Print Assumptions C07_bgp_cleanup_once.
+
+(* a connection rejected early sends nothing and leaves live_sessions alone - the entry
+   of the earlier session of that peer included *)
+Theorem C07_bgp_rejected_leaves_alone : forall id key live0 evs,
+  bs_wf evs = true ->
+  let s := (bs_loop id key (bs_init live0) evs).1 in
+  let f := (bs_process id key live0 evs).1 in
+  bs_rej s = true -> bs_out f = [] /\ bs_live f = live0 /\ key ∈ bs_live f.
+Proof. exact rejected_leaves_alone. Qed.
+Print Assumptions C07_bgp_rejected_leaves_alone.
+
+(* live_sessions at the end, all scripts: as before the session, except ... *)
+Theorem C07_bgp_live_at_end : forall id key live0 evs,
+  bs_wf evs = true ->
+  let s := (bs_loop id key (bs_init live0) evs).1 in
+  let f := (bs_process id key live0 evs).1 in
+  bs_live f = if bs_window s then live0 ∖ {[key]} else live0.
+Proof. exact live_at_end. Qed.
+Print Assumptions C07_bgp_live_at_end.
+
+Theorem C07_bgp_live_untouched_partial : forall id key live0 evs,
+  bs_wf evs = true ->
+  bs_window (bs_loop id key (bs_init live0) evs).1 = false ->
+  bs_live (bs_process id key live0 evs).1 = live0.
+Proof. exact live_untouched_partial. Qed.
+Print Assumptions C07_bgp_live_untouched_partial.
+
+(* ... in the window between the FSM's negotiation and the handling of SessionNegotiated:
+   a second connection of a peer that negotiates and then fails takes the FIRST session's
+   entry out of live_sessions (known finding C07-bgp-window) *)
+Theorem C07_bgp_window_refuted :
+  bs_wf bs_window_witness = true /\
+  bs_reg (bs_process 7 5 {[5; 6]} bs_window_witness).1 = false /\
+  bs_live (bs_process 7 5 {[5; 6]} bs_window_witness).1 = {[6]} /\
+  bs_out (bs_process 7 5 {[5; 6]} bs_window_witness).1 = [UWithdraw 7 None].
+Proof. exact window_removes_other_entry. Qed.
+Print Assumptions C07_bgp_window_refuted.
+
+(* the property's reading (the key leaves iff this session put it there) and the model
+   of the code agree on every script outside that class *)
+Theorem C07_bgp_spec_agrees : forall id key live0 evs,
+  bs_known_window id key live0 evs = false ->
+  bs_live (bs_process_spec id key live0 evs).1 = bs_live (bs_process id key live0 evs).1 /\
+  bs_out (bs_process_spec id key live0 evs).1 = bs_out (bs_process id key live0 evs).1 /\
+  bs_cmds (bs_process_spec id key live0 evs).1 = bs_cmds (bs_process id key live0 evs).1 /\
+  (bs_process_spec id key live0 evs).2 = (bs_process id key live0 evs).2.
+Proof. exact spec_agrees. Qed.
+Print Assumptions C07_bgp_spec_agrees.
+
+(* non-vacuity, exit by exit: a registered session that announced two routes, ended by
+   ConnectionLost(None|Some), closed channel, end of script, the three tick errors, main
+   config changed, peer removed, Terminate then ConnectionLost, peer config changed then
+   tick error - always [Bulk; Withdraw 7] *)
+Theorem C07_bgp_every_exit :
+  Forall (fun ex =>
+    let evs := [BNegotiate; BMsgNegotiated; BMsgUpdate (Some (URoutes 0 [1; 2] 3 0 []))] ++ ex in
+    bs_wf evs = true /\
+    bs_reg (bs_loop 7 5 (bs_init {[6]}) evs).1 = true /\
+    bs_out (bs_process 7 5 {[6]} evs).1 =
+      [UBulk [MkPay (0, 1, 7) true 3; MkPay (0, 2, 7) true 3]; UWithdraw 7 None]) bs_exits.
+Proof. exact every_exit_cleans_up. Qed.
+Print Assumptions C07_bgp_every_exit.
